@@ -64,7 +64,7 @@ fn systematic_types() -> Vec<Ty> {
 
 pub fn run(cx: &mut Ctx) {
     let sys = systematic_types();
-    let n_random: usize = if cx.thorough { 30_000 } else { 1_500 };
+    let n_random: usize = if cx.thorough { 30_000 } else { 8_000 };
     let total = sys.len() + n_random;
     for i in 0..total {
         if i % cx.nshards != cx.shard {
@@ -240,7 +240,7 @@ fn casts(cx: &mut Ctx) {
             }
         }
     }
-    let extra = if cx.thorough { 120 } else { 20 };
+    let extra = if cx.thorough { 120 } else { 60 };
     for _ in 0..extra {
         let t = random_ty(&mut rng, 2, 8);
         pool.push(t.clone());
@@ -290,7 +290,7 @@ fn casts(cx: &mut Ctx) {
     }
     // run-time: the bits are unchanged
     rng.shuffle(&mut accepted_pairs);
-    let n_exec = if cx.thorough { 400 } else { 40 };
+    let n_exec = if cx.thorough { 400 } else { 120 };
     for (a, b) in accepted_pairs.into_iter().take(n_exec) {
         if cx.out_of_time() {
             return;
